@@ -34,6 +34,8 @@ func C17(r *core.Run) {
 	pathVariablesPerSegment(r)
 	// the key markers (primary, foreign, tenant) are independent: each is emitted whatever the others are
 	attributeIndependence(r, "sym_sites", "*")
+	// "primary-key fields are required": forced by the primary-key marker alone, whatever the key's format
+	requiredPropagation(r)
 	// what is generated for one declared command service / event / summary does not depend on the one before it
 	iterationIndependence(r, walkRel, "entity.go", "topic.go", "file.go", "service.go")
 }
